@@ -146,6 +146,25 @@ fn common_probes(a: &Analysis, v: &mut Verdict) {
     v.probe("multi_parent_same_trace", a.model.multi_parent_same_trace as u64);
     v.probe("mixed_sampled_parents", a.model.mixed_sampled_parents as u64);
     v.probe("op_panics", a.hist.ops.iter().filter(|o| o.panic.is_some()).count() as u64);
+    // faults that actually fired in this run (not merely configured)
+    let logx = &a.hist.out.log;
+    v.probe("fault.ring_full_events", logx.iter().filter(|e| e.kind == fastrace::verif::P_PUSH_OUTCOME && e.b == 1).count() as u64);
+    v.probe("fault.runs_with_reduced_ring", (a.case.sched.ring_cap != 0) as u64);
+    v.probe("fault.collector_stall", logx.iter().filter(|e| e.kind == crate::sim::K_STALL && e.b == 0).count() as u64);
+    v.probe("fault.slow_reporter", logx.iter().filter(|e| e.kind == crate::sim::K_STALL && e.b == 1).count() as u64);
+    v.probe("fault.wall_clock_step", logx.iter().filter(|e| e.kind == crate::sim::K_WALLSTEP).count() as u64);
+    v.probe("fault.thread_exit", logx.iter().filter(|e| e.kind == crate::sim::K_THREAD_FIN).count() as u64);
+    v.probe("fault.command_after_tls_gone", logx.iter().filter(|e| e.kind == fastrace::verif::P_TLS_GONE).count() as u64);
+    v.probe("fault.signal_lost_in_exit_flush", a.cmds.iter().filter(|c| c.lost && c.force && c.parked).count() as u64);
+    let count_ops = |f: &dyn Fn(&Op) -> bool| a.case.ops.iter().filter(|r| f(&r.op) || r.inner.iter().any(|o| f(o))).count() as u64;
+    v.probe("fault.cancel_calls", count_ops(&|o| matches!(o, Op::Cancel { .. })));
+    v.probe("fault.unwind_through_scope", count_ops(&|o| matches!(o, Op::UnwindScope { .. })));
+    v.probe("fault.teardown_calls", count_ops(&|o| matches!(o, Op::TeardownCalls { .. })));
+    v.probe("fault.scope_limit_bursts", count_ops(&|o| matches!(o, Op::LocalBurst { .. } | Op::ScopeBurst { .. })));
+    v.probe("fault.scope_collected_with_open_spans", count_ops(&|o| matches!(o, Op::Collect { .. })));
+    v.probe("fault.task_dropped", count_ops(&|o| matches!(o, Op::DropTask { .. })));
+    v.probe("fault.reentrant_closure_ops", a.case.ops.iter().filter(|r| !r.inner.is_empty() && !matches!(r.op, Op::Poll { .. })).count() as u64);
+    v.probe("fault.no_or_late_reporter", (!matches!(a.case.ops.first().map(|r| &r.op), Some(Op::SetReporter { .. }))) as u64);
     // recv_empty_then_push_then_exit: a thread finished while a collector sat at P_RECV_EMPTY of
     // its queue, having pushed after the empty pop
     let log = &a.hist.out.log;
